@@ -20,8 +20,20 @@ pub fn natural_labels(m: MC) -> (TC, CP) {
     }
 }
 
+/// Labels of the 140 accuracy configurations: the matrix's own companions for half of them, plain
+/// BT.1886 / BT.709 for the other half, alternating with depth and range so that every (matrix,
+/// range) pair meets both - a shortcut keyed on "matrix and primaries belong together" and one keyed
+/// on "they do not" are both on the path of C01 / C02 / C08.
+pub fn labels_for(n: u8, full: bool, m: MC) -> (TC, CP) {
+    if (n as u32 + full as u32) % 2 == 0 {
+        natural_labels(m)
+    } else {
+        (TC::BT1886, CP::BT709)
+    }
+}
+
 pub fn cfg444(n: u8, full: bool, m: MC) -> YuvConfig {
-    let (t, p) = natural_labels(m);
+    let (t, p) = labels_for(n, full, m);
     YuvConfig {
         bit_depth: n,
         subsampling_x: 0,
